@@ -254,18 +254,23 @@ def coq_files():
     return sorted(fs)
 
 
-def coq_prepare():
-    """(Re)generate Params_gen.v from /repo and the _CoqProject/Makefile. Caller holds the lock."""
+def coq_prepare(only=None):
+    """(Re)generate Params_gen.v / <prop>/ParamsGen.v from the repo and the _CoqProject/Makefile.
+    Caller holds the lock. With `only` = a property name, only that property's ParamsGen.v is
+    rewritten (a check against a scratch tree via LTV_REPO must not disturb other properties)."""
     sys.path.insert(0, os.path.join(VERIF, "gen"))
     import params as P
     txt = P.generate(REPO)
     pg = os.path.join(COQ, "Params_gen.v")
     old = open(pg).read() if os.path.exists(pg) else None
-    if old != txt:
+    if old != txt and (only is None or REPO == "/repo"):
         with open(pg, "w") as f:
             f.write(txt)
     for prop, ptxt in P.generate_per_property(REPO).items():
         d = os.path.join(COQ, prop)
+        if only is not None and prop != only:
+            if os.path.exists(os.path.join(d, "ParamsGen.v")):
+                continue
         if os.path.isdir(d):
             pp = os.path.join(d, "ParamsGen.v")
             if not os.path.exists(pp) or open(pp).read() != ptxt:
@@ -288,7 +293,7 @@ def coq_build(prop, timeout=1500):
     Properties.v alone to capture Print Assumptions output.
     Returns dict(obligations, discharged, theorems, axioms, ok, log, params_ok)."""
     with Lock("coq"):
-        files = coq_prepare()
+        files = coq_prepare(only=prop)
         mine = [f for f in files if (f.startswith(prop + "/") and not f.endswith("/ParamsGen.v")) or f.startswith("Common/")]
         lint = coq_lint([os.path.join(COQ, f) for f in mine])
         targets = [prop + "/Properties.vo"]
